@@ -143,6 +143,14 @@ func c13Stmt(kind string, i int) string {
 		return fmt.Sprintf(`printf "B%d;"`, i)
 	case "tofull":
 		return fmt.Sprintf(`print "E%d" > "/dev/full"`, i)
+	case "emptyf":
+		return `printf "" > "f1"`
+	case "emptyt":
+		return `printf "%s", nosuchvar > "f2"`
+	case "emptya":
+		return `printf "" >> "f2"`
+	case "emptyp":
+		return `printf "" | "cat"`
 	case "tofile":
 		return fmt.Sprintf(`print "F%d" > "f1"`, i)
 	case "append":
@@ -235,6 +243,34 @@ loop:
 		case "tofull":
 			// a stream that accepts data into its buffer and fails every flush
 			m.openOut["/dev/full"] = "full"
+		case "emptyf": // writing nothing still opens (creates / truncates) the destination
+			if _, ok := m.openIn["f1"]; ok {
+				m.err = true
+				break loop
+			}
+			if _, ok := m.openOut["f1"]; !ok {
+				m.openOut["f1"] = "file"
+				m.files["f1"] = ""
+			}
+		case "emptyt":
+			if _, ok := m.openIn["f2"]; ok {
+				m.err = true
+				break loop
+			}
+			if _, ok := m.openOut["f2"]; !ok {
+				m.openOut["f2"] = "file"
+				m.files["f2"] = "" // > truncates on the first open
+			}
+		case "emptya":
+			if _, ok := m.openIn["f2"]; ok {
+				m.err = true
+				break loop
+			}
+			if _, ok := m.openOut["f2"]; !ok {
+				m.openOut["f2"] = "file"
+			}
+		case "emptyp":
+			pipeTo("cat", "")
 		case "tofile":
 			if _, ok := m.openIn["f1"]; ok {
 				m.err = true
@@ -692,7 +728,42 @@ func c13Run(c *core.Ctx) {
 		}
 	}
 	c13FailingStream(c, bound)
+	c13EmptyOutput(c, bound)
 	c13Faults(c)
+}
+
+// c13EmptyOutput: a printf that formats to nothing still opens its destination:
+// the file is created / truncated, the command is started, the name is an open
+// stream that close() knows. All sequences of <= 3 operations with at least one
+// such printf.
+func c13EmptyOutput(c *core.Ctx, bound int) {
+	alpha := []string{"emptyf", "emptyt", "emptya", "emptyp", "tofile", "append", "pipe1", "closef", "closea", "closep", "print"}
+	for n := 1; n <= 3; n++ {
+		idx := make([]int, n)
+		for {
+			ops := make([]string, n)
+			has := false
+			for i, k := range idx {
+				ops[i] = alpha[k]
+				has = has || strings.HasPrefix(ops[i], "empty")
+			}
+			if has && !c.Expired() && c.Mine() {
+				c13RunSeq(c, ops, bound-1)
+			}
+			k := n - 1
+			for k >= 0 {
+				idx[k]++
+				if idx[k] < len(alpha) {
+					break
+				}
+				idx[k] = 0
+				k--
+			}
+			if k < 0 {
+				break
+			}
+		}
+	}
 }
 
 // c13FailingStream: one named stream (/dev/full) fails every flush; whatever
